@@ -409,6 +409,9 @@ def train_off_policy(
                     losses.append(loss)
 
                 state = next_state
+                if not is_vectorised and (done[0] or trunc[0]):
+                    # A single environment is not reset automatically
+                    state, info = env.reset()
 
             pbar.update(evo_steps // len(pop))
 
